@@ -193,6 +193,25 @@ def _r112(ck, prog, cfg):
     for name in ("recover::{closure#0}", "recover_with_progress::{closure#0}"):
         f = prog.one(RM + name)
         short = name.split("::")[0]
+        # a checkpoint the manifest names is read or recovery fails: the segments it covers are no longer listed, so treating a
+        # failed read as "no checkpoint" silently drops every update only the checkpoint holds
+        steps = [(b, t) for b, t in f.calls() if is_callee(t, r"checkpoint::CheckpointReader(::<.*>)?::(open|load|validate)$")]
+        gets = []
+        for b, t in f.calls():
+            if is_callee(t, r"ObjectStore>::get$") and len(t["args"]) > 1:
+                k = src_of_operand(f, t["args"][1], through_calls=TRANSPARENT + (r"Deref>::deref$", r"String::as_str$"))
+                if "checkpoint" in k.fields or (k.kind == "path" and "checkpoint" in (k.root or "")):
+                    gets.append((b, t))
+        ck.check(len(steps) >= 2 and len(gets) >= 1, "R11.2", "%s:checkpoint-read-found%s" % (short, _tag(cfg)),
+                 "the read of the manifest's checkpoint (get + CheckpointReader::open + load) was not found", f.where())
+        for b, t in gets:
+            ck.check(lib2.awaited_error_propagates(f, b), "R11.2", "%s:checkpoint-get-error-propagates%s" % (short, _tag(cfg)),
+                     "a failed read of the checkpoint object does not fail recovery: recovery continues as if there were no checkpoint and "
+                     "returns Ok without the updates only the checkpoint holds", f.where(t["ln"]), detail="get(checkpoint.key).await?")
+        for b, t in steps:
+            ck.check(lib2.error_propagates(f, t), "R11.2", "%s:checkpoint-%s-error-propagates%s" % (short, callee(t).rsplit("::", 1)[-1], _tag(cfg)),
+                     "a checkpoint that cannot be opened/decoded does not fail recovery (it is skipped): the updates it alone holds are "
+                     "dropped silently", f.where(t["ln"]), detail="CheckpointReader::open/load error -> Err return")
         loads = [(b, t) for b, t in f.calls() if is_callee(t, r"RecoveryManager::<S>::load_segment$")]
         ck.check(len(loads) == 1, "R11.2", "%s:load-call%s" % (short, _tag(cfg)), "load_segment call not found exactly once", f.where())
         for lb, lt in loads:
